@@ -39,6 +39,44 @@ def sm4HistSpec (k : List UInt8) : List String → List String
         else hexB (if d = "e:" then Spec.SM4.encBytes k blk else Spec.SM4.decBytes k blk)
     r :: sm4HistSpec k rest
 
+def modeHist (m : Impl.SM4.Mode) (k : List UInt8) : List String → List String
+  | [] => []
+  | op :: rest =>
+    let r := match op.splitOn ":" with
+      | [d, iv, data] =>
+        (match bytesOfHex iv, bytesOfHex data with
+         | some i, some dt =>
+           (match (if d = "e" then Impl.SM4.mode_encrypt m k dt i else Impl.SM4.mode_decrypt m k dt i) with
+            | .ok v => hexB v
+            | .err e => "ERR:" ++ e
+            | .panic => "PANIC")
+         | _, _ => "BAD")
+      | _ => "BAD"
+    r :: modeHist m k rest
+
+def specMode (m : Impl.SM4.Mode) (enc : Bool) (k i d : List UInt8) : Option (List UInt8) :=
+  if k.length ≠ 16 ∨ i.length ≠ 16 then none else
+  let E := Spec.SM4.encBytes k
+  let D := Spec.SM4.decBytes k
+  match m, enc with
+  | .ctr, _ => some (Spec.Modes.ctr E i d)
+  | .ofb, _ => some (Spec.Modes.ofb E i d)
+  | .cfb, true => some (Spec.Modes.cfbEnc E i d)
+  | .cfb, false => some (Spec.Modes.cfbDec E i d)
+  | .cbc, true => some (Spec.Modes.cbcEnc E i d)
+  | .cbc, false => Spec.Modes.cbcDec D i d
+
+def modeHistSpec (m : Impl.SM4.Mode) (k : List UInt8) : List String → List String
+  | [] => []
+  | op :: rest =>
+    let r := match op.splitOn ":" with
+      | [d, iv, data] =>
+        (match bytesOfHex iv, bytesOfHex data with
+         | some i, some dt => (match specMode m (d = "e") k i dt with | some v => hexB v | none => "ERR")
+         | _, _ => "BAD")
+      | _ => "BAD"
+    r :: modeHistSpec m k rest
+
 /-- split a list according to request sizes -/
 def splitBy {α} : List α → List Nat → List (List α)
   | _, [] => []
@@ -73,6 +111,14 @@ def implStep (toks : List String) : Option String :=
     | some m, some k, some i, some d =>
       some (showOut ((if dir = "enc" then Impl.SM4.mode_encrypt m k d i else Impl.SM4.mode_decrypt m k d i).map hexB))
     | _, _, _, _ => none
+  | "sm4modehist" :: mode :: key :: ops =>
+    match modeOf mode, bytesOfHex key with
+    | some m, some k =>
+      (match Impl.SM4.new k with
+       | .ok _ => some ("OK " ++ String.intercalate " " (modeHist m k ops))
+       | .err e => some ("ERR " ++ e)
+       | .panic => some "PANIC")
+    | _, _ => none
   | ["sm4rt", mode, key, iv, data] =>
     match modeOf mode, bytesOfHex key, bytesOfHex iv, bytesOfHex data with
     | some m, some k, some i, some d =>
@@ -148,6 +194,10 @@ def specStep (toks : List String) : Option String :=
         | .cbc, "enc" => "OK " ++ hexB (Spec.Modes.cbcEnc E i d)
         | .cbc, _ => showSpec ((Spec.Modes.cbcDec D i d).map hexB))
     | _, _, _, _ => none
+  | "sm4modehist" :: mode :: key :: ops =>
+    match modeOf mode, bytesOfHex key with
+    | some m, some k => if k.length ≠ 16 then some "ERR" else some ("OK " ++ String.intercalate " " (modeHistSpec m k ops))
+    | _, _ => none
   | ["sm4rt", mode, key, iv, data] =>
     match modeOf mode, bytesOfHex key, bytesOfHex iv, bytesOfHex data with
     | some m, some k, some i, some d =>
